@@ -104,7 +104,7 @@ const char HREST[] = "ABCDEFGHIJKLMNOPQRSTUVWXYZ0123456789_";
 AuxEntry make_aux(const std::string &style, uint64_t seed, int idx) {
 	Rng r(sub_seed(seed, "aux", (uint64_t)idx), "aux");
 	AuxEntry e;
-	bool mixed = style != "plain";
+	bool mixed = style != "plain" && style != "long";
 	std::string digits = std::to_string(idx);
 	bool hier = mixed && r.chance(0.25);
 	if (hier) {
@@ -126,7 +126,7 @@ AuxEntry make_aux(const std::string &style, uint64_t seed, int idx) {
 	}
 	// room for the value on the card
 	size_t maxlen = hier ? (80 - 9 - e.key.size() - 3 - 2) : 68;
-	if (maxlen > 12) maxlen -= 10;   // leave slack for quote doubling and padding to 8
+	if (maxlen > 12 && style != "long") maxlen -= 10;   // leave slack for quote doubling and padding to 8
 	int kind = mixed ? (int)r.below(10) : 0;
 	if (kind == 7) {   // integer literal
 		e.literal = true;
@@ -137,6 +137,7 @@ AuxEntry make_aux(const std::string &style, uint64_t seed, int idx) {
 		else e.value = real_literal(r.chance(0.5) ? r.uniform(-1e3, 1e3) : std::ldexp(r.unit(), (int)r.range(-40, 40)));
 	} else {
 		size_t len = r.chance(0.05) ? 0 : r.chance(0.1) ? maxlen : (size_t)r.below(std::min<size_t>(maxlen, 40) + 1);
+		if (style == "long") len = maxlen - (size_t)r.below(9);   // every value (nearly) fills its card: 60..68 characters
 		std::string v;
 		for (size_t i = 0; i < len; i++) {
 			char c = (char)(0x20 + r.below(0x7f - 0x20));
@@ -279,6 +280,7 @@ TableDesc gen_table(Rng &rng, const GenLimits &lim) {
 	if (lim.exotic_aux && d.naux > 0) {
 		if ((int)rng.below(1000) < lim.quote_permille) d.aux = "quote";
 		else if (rng.chance(0.5)) d.aux = "mixed";
+		else if (rng.chance(0.2)) d.aux = "long";
 	}
 	if (lim.writer_styles) {
 		d.no_type = rng.chance(0.1);
@@ -384,7 +386,7 @@ std::vector<TableDesc> simplify_desc(const TableDesc &d) {
 	// plainer styles
 	if (d.coeffs != "smooth") { TableDesc c = d; c.coeffs = "smooth"; out.push_back(c); }
 	if (d.knots != "uniform") { TableDesc c = d; c.knots = "uniform"; out.push_back(c); }
-	if (d.aux != "plain" && d.naux > 0) { TableDesc c = d; c.aux = d.aux == "quote" ? "mixed" : "plain"; out.push_back(c); }
+	if (d.aux != "plain" && d.naux > 0) { TableDesc c = d; c.aux = d.aux == "quote" ? "mixed" : "plain"; out.push_back(c); }   // "long" -> "plain"
 	if (d.periods != "none") { TableDesc c = d; c.periods = d.periods == "values" ? "zero" : "none"; out.push_back(c); }
 	if (d.extents == "explicit") { TableDesc c = d; c.extents = "default"; out.push_back(c); }
 	if (d.single_order) { TableDesc c = d; c.single_order = false; out.push_back(c); }
